@@ -287,7 +287,7 @@ pub fn run(rc: &mut RunCtx) {
     let seed = rc.seed;
     // negotiated frame_max values: (client, server)
     let fms: &[(u32, u32)] = &[(0, 4096), (4096, 0), (4097, 131072), (0, 8192), (65536, 131072), (0, 131072), (0, 0), (5000, 4999 + 1), (1 << 20, 0)];
-    let n = rc.n(400, 6000);
+    let n = rc.n(1000, 8000);
     for i in 0..n {
         let id = format!("pub:{}", i);
         if !rc.mine(&id) {
